@@ -249,7 +249,6 @@ def check(sim, case, st):
         snap0, bag0 = snap1, bag1
     if changes >= 2:
         st.distinct.add(tuple((k, n) for k, _s, n in trail))
-    st.simtime += sum(abs(p.get('advance', 0)) for p in case['procs'])
     seen, out = set(), []
     for s, m in res:
         if s not in seen:
